@@ -57,7 +57,13 @@
 (***************************************************************************)
 EXTENDS GnosisSlotProps, SequencesExt, FiniteSetsExt, Bags
 
-CONSTANTS NK, T        \* keypers 0..NK-1 of ONE keyper set (keyper config index 1), threshold T
+CONSTANTS NK, T,       \* keypers 0..NK-1 of ONE keyper set (keyper config index 1), threshold T
+          SharesPath   \* how keyper.go registers the gnosis handlers:
+                       \*   "raw"     on the p2p messaging itself (the code as found): the keys message
+                       \*             DecryptionKeySharesHandler returns is sent as it is, the branch
+                       \*             `Extra != nil -> advanceTxPointer` of interceptDecryptionKeys is never
+                       \*             reached and the announcing keyper's own tx pointer stays (finding GNO-1)
+                       \*   "wrapped" through the MessagingMiddleware (proposed repair GNO-1.diff)
 
 CS == INSTANCE ChainSyncProps
 SR == INSTANCE SigRuleProps WITH LenRule <- "equal"
@@ -98,9 +104,16 @@ SyncStep(ch, sy) == CS!Final(sy, CS!Run(SyncCfg, ch.blk, ch.head, sy, CS!NoFault
 
 (* transaction_submitted_event as GnosisSlot's queue: rows in index order *)
 Contiguous(stored) == {r.key : r \in stored} = {KeyOf(i) : i \in 0..(Cardinality(stored) - 1)}
+(* total also on tables the composition does not produce (a missing index, a row that is not the
+   transaction of a block of the chain: bid < 1): the trace layer must yield a verdict, not an error *)
 QueueOf(ch, stored) ==
     [i \in 1..Cardinality(stored) |->
-        LET row == CHOOSE r \in stored : r.key = KeyOf(i - 1) IN [r |-> Ranks[row.bid], g |-> ch.tx[row.bid].g]]
+        LET rows == {r \in stored : r.key = KeyOf(i - 1)} IN
+        IF rows = {} THEN [r |-> 0, g |-> "Above"]
+        ELSE LET row == CHOOSE r \in rows : TRUE IN
+             IF row.bid \in DOMAIN ch.tx /\ row.bid \in DOMAIN Ranks /\ ch.tx[row.bid].g # "none"
+             THEN [r |-> Ranks[row.bid], g |-> ch.tx[row.bid].g]
+             ELSE [r |-> 0, g |-> "Above"]]
 
 (* the synced state GnosisSlot!MaybeTriggerDecryption reads; fakeeth block n has the timestamp of
    slot n, a rollback writes slot 0 *)
@@ -210,14 +223,17 @@ TickKeyper(ch, kp, k, s) ==
          ELSE LET i == InterceptShares([kp1 EXCEPT !.sh = @ \cup mine], k, ids) IN
               [kp |-> i.kp, out |-> i.out, r |-> [out |-> "emit", trig |-> x.trig, err |-> ""]]
 
-(* gnosis DecryptionKeySharesHandler.HandleMessage (registered on the RAW messaging: its output is
-   not intercepted, the tx pointer is not touched) *)
+(* gnosis DecryptionKeySharesHandler.HandleMessage (SharesPath "raw": registered on the RAW
+   messaging, its output is not intercepted, the tx pointer is not touched) *)
 GnosisHandleShares(kp, j, m) ==
     LET sg1 == InsertSig(kp.sg, SigRow(m.c, m.from))
         signers == SignersFor(sg1, m.c)
         kp1 == [kp EXCEPT !.sg = sg1] IN
     IF Cardinality(signers) >= T /\ IdsOf(m.c) \subseteq kp.ky
-    THEN Res(kp1, <<KeysM(j, m.c, G!FirstT(signers))>>)
+    THEN Res(IF SharesPath = "wrapped"
+             THEN [kp1 EXCEPT !.s.ptr[TheEon] = PtrRow(m.c.p + Len(m.c.ids) - 1, 0)]    \* interceptDecryptionKeys, Extra != nil
+             ELSE kp1,
+             <<KeysM(j, m.c, G!FirstT(signers))>>)
     ELSE Res(kp1, <<>>)
 
 (* core DecryptionKeyShareHandler.HandleMessage, wrapped by the middleware *)
